@@ -74,9 +74,18 @@ def run(chk):
                 pts += [rng.randrange(n) for _ in range(120 if th else 40)]
                 ks = sorted(set(p for p in pts if 0 <= p <= n))
             for k in ks:
-                jobs.append((name, sc, ci, k, wires))
+                jobs.append((name, sc, ci, k, wires, None))
+            # the peer is gone altogether: besides the end of stream, the client's own writes start failing (EPIPE) after a few sends
+            if name in ('login+compression', 'login+encryption', 'play', 'play+large-frame'):
+                o, ends = 0, [0]
+                for f in sc['conns'][ci][0]:
+                    o += len(f)
+                    ends.append(o)
+                for k in sorted(set(ends[:4] + [1, 2, ends[1] + 1])):
+                    for gone in (0, 1, 2, 3):
+                        jobs.append((name, sc, ci, k, wires, gone))
     model_reqs, model_idx = [], []
-    for name, sc, ci, k, wires in jobs:
+    for name, sc, ci, k, wires, gone in jobs:
         frames = sc['conns'][ci][0]
         ends, o = [], 0
         for f in frames:
@@ -90,7 +99,7 @@ def run(chk):
             if j < ci:
                 servers.append(sim.Server([w], end='idle'))
             elif j == ci:
-                servers.append(sim.Server([w[:k]] if rng.random() < 0.5 or k < 2 else [w[:k // 2], w[k // 2:k]], end='eof'))
+                servers.append(sim.Server([w[:k]] if rng.random() < 0.5 or k < 2 else [w[:k // 2], w[k // 2:k]], end='eof', fail_send_after=gone))
             else:
                 servers.append(sim.Server([w], end='idle'))
         servers.append(sim.Server([], end='idle'))
@@ -161,8 +170,8 @@ def run(chk):
         finally:
             net.uninstall()
         srv = servers[ci]
-        case = {'stream': name, 'connection': ci, 'prefix': k, 'of': len(wires[ci])}
-        chk.count('prefix', [name, ci, k], inside)
+        case = {'stream': name, 'connection': ci, 'prefix': k, 'of': len(wires[ci]), 'writes_fail_after': gone}
+        chk.count('prefix', [name, ci, k, gone], inside)
         chk.tally('%s:%s' % (name, 'inside-frame' if inside else 'boundary'))
         outs = [r[1] for r in res]
         what = None
@@ -175,7 +184,7 @@ def run(chk):
             exp_n = complete
             if name == 'play' and k == len(wires[ci]):
                 pass
-            if len(got) != exp_n:
+            if (len(got) != exp_n) if gone is None else (len(got) > exp_n):         # (a failed forced write ends the conversation early)
                 what = '%d packets delivered to listeners from this connection; %d frames are wholly contained in the prefix' % (len(got), exp_n)
             else:
                 ended_by_script = (name == 'play' and complete == len(frames)) or (name == 'status' and complete == len(frames))
@@ -195,6 +204,14 @@ def run(chk):
                 elif ended_by_script:
                     if excs:
                         what = 'an error (%s) was reported although the conversation had ended' % exn_name(excs[0])
+                elif gone is not None:
+                    # end of stream and failing writes together: one of the two errors is reported, never none.  The model's turn:
+                    # a held IOError (32 = EPIPE), the frames still readable, then the read that raises EOFError (-1)
+                    m = run_model([('loop_turn', [[[32, True]], [[False, [], False]] * (complete % 50) + [[False, [-1], False]]])])[0]
+                    if m[0] != 2:
+                        chk.broken('prefix', 'the model turn with a held write error and an end-of-stream read ends with %s' % (m,))
+                    if not excs or not isinstance(excs[-1], (EOFError, OSError)):
+                        what = 'the peer was gone (end of stream, writes failing after %d sends) but %s was reported' % (gone, exn_name(excs[-1]) if excs else 'nothing')
                 elif not excs or not isinstance(excs[-1], EOFError):
                     what = 'the stream ended %s but %s was reported' % ('inside a frame' if inside else 'between frames', exn_name(excs[-1]) if excs else 'nothing')
         if not what:
@@ -208,10 +225,10 @@ def run(chk):
             elif got_again != exp_again:
                 what = 'a second conversation on the same Connection object delivered %s packets per connection; the healthy server sent %s' % (got_again, exp_again)
         if what:
-            chk.violation('prefix', 'prefix:%s:%d:%d' % (name, ci, k), {'case': case, 'observed': what, 'thread_outcomes': [str(o)[:60] for o in outs]},
+            chk.violation('prefix', 'prefix:%s:%d:%d%s' % (name, ci, k, '' if gone is None else ':gone%d' % gone), {'case': case, 'observed': what, 'thread_outcomes': [str(o)[:60] for o in outs]},
                           '%s, connection %d cut after %d of %d bytes: %s' % (name, ci, k, len(wires[ci]), what))
         # cross-check the delivered packets with the model reader on constant-compression streams
-        if name in ('play', 'status') and ci == 0:
+        if name in ('play', 'status') and ci == 0 and gone is None:
             model_reqs.append(('read_until_error', [[], False, len(frames) + 1, [wires[ci][:k]] if k else []]))
             model_idx.append((case, [pid for c, pid in delivered if c == ci]))
     res = run_model(model_reqs)
